@@ -105,6 +105,11 @@ def build(d):
                 "NoneType": type(None)}.get(d["name"], object)
     if k == "schema":
         return build_schema(d["cls"], d["props"])
+    if k == "expr":      # a DSL / literal expression (bounded complement zoo): readable in replay files
+        try:
+            return eval(d["src"], {"schema": schema, "optional": optional, "Nil": Nil, "object": object, "__builtins__": {}})
+        except DeclarationError as e:
+            raise Unreachable(f"DSL refuses the expression: {e}")
     if k == "optional":
         return optional(build(d["key"]))
     if k == "custom":
@@ -811,6 +816,11 @@ def oracle_C12(inp, meta=None):
         return True, f"substitute({S!r}, {v!r}) raised {R!r} (not SubstitutionError)"
     if st != "ok":
         return False, "SubstitutionError"
+    try:
+        repr(R)
+        validate(R, v)
+    except Exception as e:
+        return True, f"substitute({S!r}, {v!r}) returned a schema that cannot be used: validating / printing it raises {e!r}"
     sm = _samples(R)
     if all(isinstance(g, Exception) or validate(R, g).has_errors() for _, g in sm):
         return True, f"S % v = {R!r} cannot be generated from / accepts nothing it generates: {sm[0][1]!r}"
@@ -995,7 +1005,15 @@ def oracle_C15(inp, meta=None):
     if "schema" in inp and "value" in inp:
         S_, v = build(inp["schema"]), build(inp["value"])
         if isinstance(v, Schema):
-            return False, "schema operand"
+            if (S_ == v) != (v == S_):
+                return True, f"({S_!r} == {v!r}) is {S_ == v} but the reverse is {v == S_}"
+            if (S_ != v) == (S_ == v):
+                return True, f"!= is not the negation of == for {S_!r}, {v!r}"
+            if S_ == v:
+                for w in [None, 0, 1, "a", [], {}, [1], {"a": 1}, 1.5, b"", True]:
+                    if validate(S_, w).has_errors() != validate(v, w).has_errors():
+                        return True, f"{S_!r} == {v!r} although they give different verdicts on {w!r}"
+            return False, "schema operands compare consistently"
         got = (S_ == v)
         want = not validate(S_, v).has_errors()
         if got != want or (S_ != v) == got:
@@ -1113,7 +1131,11 @@ def _fake_in_subprocess(exprs, hashseed):
 C17_ZOO = ["schema.int.min(0).max(10)", "schema.str.len(8)", "schema.str.alphabet('hello world').len(12)",
            "schema.str.alphabet('xxyyzz').len(6)", "schema.str.regex('[a-f]{3}-[0-9]+')", "schema.float.precision(2)",
            "schema.list(schema.bool).len(5)", "schema.dict({'a': schema.int, 'b': schema.str.contains('q')})",
-           "schema.any(schema.int, schema.str, schema.none)", "schema.bytes"]
+           "schema.any(schema.int, schema.str, schema.none)", "schema.bytes",
+           # schemas built through the combinators (key / alternative order must not depend on the hash seed)
+           "schema.dict({'id': schema.int, 'name': schema.str.len(3)}) + schema.dict({'tag': schema.str.len(2), 'n': schema.int})",
+           "schema.list(schema.dict({'a': schema.int}) + schema.dict({'b': schema.int, 'c': schema.int})).len(2)",
+           "schema.int | schema.str.len(4) | schema.none", "schema.int.min(0).max(99)"]
 
 
 def oracle_C17(inp, meta=None):
